@@ -35,17 +35,15 @@ Record st : Type := mkst {
   nconn : Z;
   faults : list Z;
   log : list Z;           (* DBAPI calls of the current user: 1 commit, 2 rollback, 3 set isolation level *)
-  bad_close : bool;       (* ghost: close() ran with an inactive transaction object still attached while the DBAPI transaction was open *)
   twr_unsound : bool }.   (* ghost: transaction_was_reset=True reached _reset while the DBAPI transaction was open *)
 
 Definition init (fl : list Z) : st :=
-  {| idle := None; nconn := 0; faults := fl; log := []; bad_close := false; twr_unsound := false |}.
+  {| idle := None; nconn := 0; faults := fl; log := []; twr_unsound := false |}.
 
-Definition set_idle s v := mkst v (nconn s) (faults s) (log s) (bad_close s) (twr_unsound s).
-Definition set_faults s v := mkst (idle s) (nconn s) v (log s) (bad_close s) (twr_unsound s).
-Definition add_log s k := mkst (idle s) (nconn s) (faults s) (log s ++ [k]) (bad_close s) (twr_unsound s).
-Definition set_bad s := mkst (idle s) (nconn s) (faults s) (log s) true (twr_unsound s).
-Definition set_unsound s := mkst (idle s) (nconn s) (faults s) (log s) (bad_close s) true.
+Definition set_idle s v := mkst v (nconn s) (faults s) (log s) (twr_unsound s).
+Definition set_faults s v := mkst (idle s) (nconn s) v (log s) (twr_unsound s).
+Definition add_log s k := mkst (idle s) (nconn s) (faults s) (log s ++ [k]) (twr_unsound s).
+Definition set_unsound s := mkst (idle s) (nconn s) (faults s) (log s) true.
 
 Definition next_fault (s : st) : Z * st :=
   match faults s with [] => (0, s) | c :: r => (c, set_faults s r) end.
@@ -145,12 +143,12 @@ Definition do_op (o : op) (c : cst) (s : st) : Z * cst * st :=
       | Some _ => (2, c, s)
       end
   | OClose =>
-      (* Connection.close(): if self._transaction: self._transaction.close(); skip_reset = True *)
+      (* Connection.close(): if self._transaction: skip_reset = self._transaction.is_active (read before)
+         self._transaction.close(); a transaction left inactive by a failed commit gets the pool's reset *)
       match txn c with
       | Some active =>
           let '(ok, d1, s1) := if active then db_rollback d s else (true, d, s) in
-          let s1 := if negb active && in_txn d then set_bad s1 else s1 in
-          if ok then (0, mkcst d1 None (nfin c) true, finalize d1 (nfin c) true s1)
+          if ok then (0, mkcst d1 None (nfin c) true, finalize d1 (nfin c) active s1)
           else (1, mkcst d1 None (nfin c) false, s1)                (* the error escapes close(); still checked out *)
       | None => (0, mkcst d None (nfin c) true, finalize d (nfin c) false s)
       end
@@ -172,12 +170,12 @@ Definition checkout (s : st) : db * st :=
   match idle s with
   | Some d => (d, set_idle s None)
   | None => (mkdb (nconn s) false false false 0 false,
-             mkst None (nconn s + 1) (faults s) (log s) (bad_close s) (twr_unsound s))
+             mkst None (nconn s + 1) (faults s) (log s) (twr_unsound s))
   end.
 
 Definition user (ops : list op) (s : st) : db * list Z * st :=
   let (d, s0) := checkout s in
-  let s1 := mkst (idle s0) (nconn s0) (faults s0) [] (bad_close s0) (twr_unsound s0) in
+  let s1 := mkst (idle s0) (nconn s0) (faults s0) [] (twr_unsound s0) in
   let '(codes, c, s2) := do_ops ops (mkcst d None O false) s1 [] in
   (d, codes, if done c then s2 else finalize (cdb c) (nfin c) false s2).
 
